@@ -44,6 +44,20 @@ Definition tmax (t : table) : option nat :=
 Definition tupdate (t : table) (l : list sampler) : option table :=
   match tmax t with None => None | Some m => Some (tconstruct_from (S m) t l) end.
 
+(* RLScheduler._add_or_get_bootstrap_sampler (rl_scheduler.py:80-109): `{type(s): i}` keeps the LAST index of each
+   class; a HaltonSampler(batch_size=1) is appended when the class is absent *)
+Definition HALTON : nat := 9.
+Fixpoint last_index_of (c : nat) (l : list sampler) (k : nat) (acc : option nat) : option nat :=
+  match l with
+  | [] => acc
+  | s :: r => last_index_of c r (S k) (if Nat.eqb (s_class s) c then Some k else acc)
+  end.
+Definition rl_bootstrap (l : list sampler) (fresh : sampler) : list sampler * nat :=
+  match last_index_of HALTON l 0 None with
+  | Some i => (l, i)
+  | None => (l ++ [fresh], length l)
+  end.
+
 Section Calib.
   Variables (Param Series LossV : Type).
   Variable model : Param -> Z -> Series.                    (* model(theta, N, seed); N is configuration *)
@@ -123,8 +137,9 @@ Section Calib.
     set_rng (set_sch c sc') (rng_pos c + n).      (* the calibrator burns one draw per sampler *)
 
   (* ---- one batch ---- *)
-  Fixpoint replace_uid (s' : sampler) (l : list sampler) : list sampler :=
-    match l with [] => [] | s :: r => if Nat.eqb (s_uid s) (s_uid s') then s' :: r else s :: replace_uid s' r end.
+  (* the sampler object is mutated in place: every position of the tuple that holds this object sees it *)
+  Definition replace_uid (s' : sampler) (l : list sampler) : list sampler :=
+    map (fun s => if Nat.eqb (s_uid s) (s_uid s') then s' else s) l.
 
   Definition min_loss (l : list LossV) : option LossV :=
     match l with [] => None | x :: r => Some (fold_left (fun m y => if loss_leb m y then m else y) r x) end.
@@ -294,25 +309,10 @@ Section Calib.
         | inl sc' => (mkSt (set_sch (live s') sc') (disk s'), Some e, [])
         end
       | (s', _) =>
-        (* repair C04-calibrate-zero-checkpoint: when no batch was run (n_batches <= 0) the state is
-           checkpointed all the same, so that the folder holds the state calibrate() returns with *)
-        match (if Nat.eqb n 0 && c_saving (cfg (live s'))
-               then match save (live s') with
-                    | Some d => inl (mkSt (live s') (Some d))
-                    | None => inr ExOther
-                    end
-               else inl s') with
-        | inr e0 =>
-          match end_session (sch (live s')) with
-          | inr e' => (s', Some e', [])
-          | inl sc' => (mkSt (set_sch (live s') sc') (disk s'), Some e0, [])
-          end
-        | inl s'' =>
-          match end_session (sch (live s'')) with
-          | inr e => (s'', Some e, [])
-          | inl sc' => let c' := set_sch (live s'') sc' in
-                       (mkSt c' (disk s''), None, sort_pairs (combine (params c') (losses c')))
-          end
+        match end_session (sch (live s')) with
+        | inr e => (s', Some e, [])
+        | inl sc' => let c' := set_sch (live s') sc' in
+                     (mkSt c' (disk s'), None, sort_pairs (combine (params c') (losses c')))
         end
       end
     end.
